@@ -217,7 +217,7 @@ VocabDoc == IF VocabFile = "" THEN [names |-> <<>>, casevariants |-> <<>>] ELSE 
 VocabTop == VocabDoc.names
 VocabCase == VocabDoc.casevariants
 VocabCon == VocabTop \o VocabCase
-VocabSeq(pos) == CASE pos = "top" -> VocabTop [] pos = "topcase" -> VocabCase [] OTHER -> VocabCon
+VocabSeq(pos) == CASE pos = "top" -> VocabTop [] pos = "topcase" -> VocabCase [] OTHER -> VocabCon    \* "con", "tpi"
 CS(pos) == IF pos = "topcase" THEN 1 ELSE ChunkSize
 NChunks(pos) == (Len(VocabSeq(pos)) + CS(pos) - 1) \div CS(pos)
 ChunkIdx(pos, c) == {i \in 1..Len(VocabSeq(pos)) : (i - 1) \div CS(pos) = c - 1}
@@ -230,26 +230,34 @@ PduTyped == {"redacts", "sticky", "msc4354_sticky"}
 
 \* positions: "top" a chunk of the vocabulary as additional top-level keys (raw: on top of every listed key),
 \*            "con" a chunk as additional content keys, on top of the content keys the algorithm lists for the type,
+\*            "tpi" (m.room.member) a chunk as additional keys of content.third_party_invite, next to what is listed there,
 \*            "topcase" one case variant as an additional top-level key
 \* In every position the names the algorithm lists there are taken out of the chunk: what is left is unlisted.
 VocabEvent(f, v, t, pos, c) ==
     LET a == RedactionAlgo(v)
         seq == VocabSeq(pos)
         off == c + TypeIdx(t)
-        listed == IF pos = "con" THEN ContentKeep(a, t) \cup {NestedKey} ELSE TopKeep(a)
+        listed == CASE pos = "con" -> ContentKeep(a, t) \cup {NestedKey}
+                    [] pos = "tpi" -> NestedKeep(a, t)
+                    [] OTHER -> TopKeep(a)
         extra == {i \in ChunkIdx(pos, c) : seq[i] \notin listed}
         names == {seq[i] : i \in extra}
-        cls(k) == IF f = "pdu" /\ pos # "con" /\ k \in PduTyped THEN "std"
+        cls(k) == IF f = "pdu" /\ pos \in {"top", "topcase"} /\ k \in PduTyped THEN "std"
                   ELSE Free(f, (CHOOSE i \in extra : seq[i] = k) + off)
         mand == IF f = "pdu" THEN PduMandatory(v, FALSE) ELSE {"type", "content"}
         basek == IF f = "raw" /\ pos = "top" THEN TopKeep(a) ELSE mand
-        conbase == IF pos = "con" THEN ContentKeep(a, t) ELSE {}
+        conbase == CASE pos = "con" -> ContentKeep(a, t)
+                     [] pos = "tpi" -> ContentKeep(a, t) \cup {NestedKey}
+                     [] OTHER -> {}
     IN [type |-> t,
-        top |-> [k \in basek \cup (IF pos = "con" THEN {} ELSE names) |->
+        top |-> [k \in basek \cup (IF pos \in {"top", "topcase"} THEN names ELSE {}) |->
                     IF k \in basek THEN TopClass(f, k, t, off, mand) ELSE cls(k)],
         con |-> [k \in conbase \cup (IF pos = "con" THEN names ELSE {}) |->
-                    IF k \in conbase THEN ConClass(f, k, off, "none") ELSE cls(k)],
-        tpi |-> NoTpi]
+                    IF k \in conbase THEN ConClass(f, k, off, "other1") ELSE cls(k)],
+        tpi |-> IF pos = "tpi"
+                THEN [obj |-> TRUE, keys |-> [k \in NestedKeep(a, t) \cup names |->
+                                                 IF k \in NestedKeep(a, t) THEN "std" ELSE cls(k)]]
+                ELSE NoTpi]
 
 \* --- kind "hist": calls handled by the same process before the call under observation ------------------------
 \* An earlier call is described by the entry point it came through, the redaction algorithm it used, its outcome
@@ -284,7 +292,8 @@ InitLattice ==
 
 InitVocab ==
     \E f \in Families, v \in Versions, t \in Types :
-    \E pos \in {"top", "con"} \cup (IF f = "raw" /\ t \in {"other", "m.room.create"} THEN {"topcase"} ELSE {}) :
+    \E pos \in {"top", "con"} \cup (IF f = "raw" /\ t \in {"other", "m.room.create"} THEN {"topcase"} ELSE {})
+                              \cup (IF t = "m.room.member" THEN {"tpi"} ELSE {}) :
     \E c \in 1..NChunks(pos) :
        /\ kind = "vocab" /\ fam = f /\ ver = v
        /\ e = VocabEvent(f, v, t, pos, c)
